@@ -43,12 +43,17 @@ class _RecordBatch(object):
         return FBatch(list(arrays), schema)
 
 
+UNMODELLED = []     # keyword arguments the stub does not model: a harness that sees any must answer 'inconclusive', never 'violation'
+
+
 class FakePA(object):
     RecordBatch = _RecordBatch
     Schema = FSchema
 
     @staticmethod
-    def array(data, type=None):
+    def array(data, type=None, **kw):
+        for k in kw:
+            UNMODELLED.append('pa.array(%s=...)' % k)
         return FArray(data)
 
 
